@@ -4,7 +4,7 @@ import random
 
 META = {'explanation': '__eq__/__ne__/__hash__ contracts proved over the four classes and the modelled operand kinds; plus a bounded native '
                        'sweep over the remaining operand kinds.'}
-EXTRA_TASKS = ['eq_operand_kinds', 'bitarray_endianness']
+EXTRA_TASKS = ['eq_operand_kinds', 'bitarray_endianness', 'hash_stable_under_aliasing']
 
 
 def _eq_case(seed, i):
@@ -103,4 +103,15 @@ def bitarray_endianness(tier='quick', seed=0):
     for b in r.get('bounded', []):
         b['id'] = b['id'].replace('C08/', 'C13/')
     r['id'] = 'C13.endianness'
+    return r
+
+
+def hash_stable_under_aliasing(tier='quick', seed=0):
+    """(shared with C20) an immutable Bits / ConstBitStream used to build or assign into a mutable object keeps its value and hash
+    whatever is then done to that object: the sequences fuzzer of C20, whose watch list checks exactly this, run under C13"""
+    from props import C20
+    r = C20.sequences(tier, seed + 13)
+    for b in r.get('bounded', []):
+        b['id'] = b['id'].replace('C20/', 'C13/')
+    r['id'] = 'C13.aliasing'
     return r
